@@ -1,5 +1,6 @@
 import RgVerif.Lemmas.ReadByLineCLoop
 import RgVerif.Lemmas.ReadByLineGTop
+import RgVerif.Lemmas.CorePres
 /-
 C02 with context lines: `ReadByLine::run` = `SliceByLine::run`, events and result, for every sink
 script, read script and capacity (slow path, detection off).
@@ -52,7 +53,7 @@ theorem sliceByLine_via_slowLoop {cfg : Config} (m : MatcherI) (σ : Script) (hb
       obtain ⟨h1, h2⟩ := hrun
       subst h1 h2
       simp only [sliceLoop, List.length_nil, Nat.zero_add, List.drop_nil, List.isEmpty_nil, if_true]
-      have hf := finish_eq σ c0 (byteCount c0) c0.binaryByteOffset
+      have hf := finish_events σ c0 (byteCount c0) c0.binaryByteOffset
       simp only [Run.events]
       rw [hf.1, hf.2]
       simp [byteCount, c_bin, c_pos, endEvents, endResult]
@@ -76,7 +77,7 @@ theorem sliceByLine_via_slowLoop {cfg : Config} (m : MatcherI) (σ : Script) (hb
         cases b with
         | false =>
           dsimp only
-          have hf := finish_eq σ T1 (byteCount T1) T1.binaryByteOffset
+          have hf := finish_events σ T1 (byteCount T1) T1.binaryByteOffset
           simp only [Run.events]
           rw [hf.1, hf.2]
           simp [byteCount, hTbin, endEvents, endResult]
@@ -89,20 +90,127 @@ theorem sliceByLine_via_slowLoop {cfg : Config} (m : MatcherI) (σ : Script) (hb
             | succ n => rw [sliceLoop]; simp [hp]
           rw [hloop]
           dsimp only
-          have hf := finish_eq σ T1 (byteCount T1) T1.binaryByteOffset
+          have hf := finish_events σ T1 (byteCount T1) T1.binaryByteOffset
           simp only [Run.events]
           rw [hf.1, hf.2]
           simp [byteCount, hTbin, endEvents, endResult]
   · rw [hlen0, hσ] at hσ'; exact absurd hσ' (by decide)
   · rw [hlen0, hσ] at hσ'; exact absurd hσ' (by decide)
 
-/-- **C02 with context lines, for every sink script**: reader = slice, events and result. -/
-theorem readByLine_eq_sliceByLine_C {cfg : Config} (m : MatcherI) (σ : Script) (hmc : cfg.maxContext ≠ 0)
+/-- "the log extends `E0`" survives everything `Core` does -/
+theorem extPres (cfg : Config) (σ : Script) (buf : Bytes) (E0 : List Event) :
+    CorePres cfg σ buf (fun st => ∃ rest, st.events = E0 ++ rest) where
+  upd := fun _ _ h he _ _ => by obtain ⟨r, hr⟩ := h; exact ⟨r, by rw [he, hr]⟩
+  brk := fun st o h => by
+    obtain ⟨r, hr⟩ := h
+    obtain ⟨n, hn, _⟩ := sinkBreakContext_ext cfg σ buf st o
+    exact ⟨r ++ n, by rw [hn, hr, List.append_assoc]⟩
+  sm := fun st rg h => by
+    obtain ⟨r, hr⟩ := h
+    obtain ⟨n, hn, _⟩ := sinkMatched_ext cfg σ buf st rg
+    exact ⟨r ++ n, by rw [hn, hr, List.append_assoc]⟩
+  sb := fun st rg h => by
+    obtain ⟨r, hr⟩ := h
+    obtain ⟨n, hn, _⟩ := sinkBeforeContext_ext cfg σ buf st rg
+    exact ⟨r ++ n, by rw [hn, hr, List.append_assoc]⟩
+  sa := fun st rg h => by
+    obtain ⟨r, hr⟩ := h
+    obtain ⟨n, hn, _⟩ := sinkAfterContext_ext cfg σ buf st rg
+    exact ⟨r ++ n, by rw [hn, hr, List.append_assoc]⟩
+  so := fun st rg h => by
+    obtain ⟨r, hr⟩ := h
+    obtain ⟨n, hn, _⟩ := sinkOtherContext_ext cfg σ buf st rg
+    exact ⟨r ++ n, by rw [hn, hr, List.append_assoc]⟩
+
+/-- the log of `SliceByLine::run` extends the log its slow loop has after any prefix `Ls` of the lines -/
+theorem sliceByLine_prefix {cfg : Config} (m : MatcherI) (σ : Script) (hbin : cfg.binary = .none) (inp : Bytes)
+    (hslow : isLineByLineFast cfg m (Core.new cfg true) = false) (hσ : σ 0 = .cont)
+    (Ls tail : List Bytes) (hg : GoodLines cfg.lineTerm.asByte (Ls ++ tail)) (hfl : (Ls ++ tail).flatten = inp)
+    (S1 : Core)
+    (hrun : slowLoop cfg m σ inp (spansFrom 0 Ls)
+      { Core.new cfg true with events := (Core.new cfg true).events ++ [Event.begin] } = (S1, .ok true)) :
+    ∃ rest, (sliceByLine cfg m σ inp).events = S1.events ++ rest := by
+  have H := extPres cfg σ inp S1.events
+  unfold sliceByLine
+  dsimp only
+  have hb0 : begin σ (Core.new cfg true) = emit σ (Core.new cfg true) .begin := rfl
+  rw [hb0]
+  have hlen0 : (Core.new cfg true).events.length = 0 := rfl
+  rcases emit_cases σ (Core.new cfg true) .begin with ⟨hσ', heq⟩ | ⟨hσ', heq⟩ | ⟨hσ', heq⟩
+  · rw [heq]
+    dsimp only
+    generalize hc0 : ({ Core.new cfg true with events := (Core.new cfg true).events ++ [Event.begin] } : Core) = c0
+      at hrun ⊢
+    have c_bin : c0.binaryByteOffset = none := by rw [← hc0]; rfl
+    have c_pos : c0.pos = 0 := by rw [← hc0]; rfl
+    rw [if_pos rfl, detectBinary_none hbin c_bin]
+    dsimp only
+    have hfast : isLineByLineFast cfg m c0 = false := isLineByLineFast_false_all cfg m true hslow c0
+    -- the loop of `SliceByLine::run` ends in a state whose log extends `S1`'s
+    have hloop : ∃ rest, (sliceLoop cfg m σ inp (inp.length + 1) c0).1.events = S1.events ++ rest := by
+      by_cases hne : inp = []
+      · subst hne
+        have hLs : Ls = [] := by
+          cases hL : Ls with
+          | nil => rfl
+          | cons l ls' =>
+            exfalso
+            rw [hL] at hg hfl
+            exact goodLines_flatten_ne_nil hg (by simp) hfl
+        subst hLs
+        simp only [spansFrom, slowLoop, Prod.mk.injEq] at hrun
+        rw [← hrun.1]
+        exact ⟨[], by simp [sliceLoop]⟩
+      · have hd : (List.drop c0.pos inp).isEmpty = false := by
+          rw [c_pos]
+          cases inp with
+          | nil => exact absurd rfl hne
+          | cons a r => rfl
+        have hsteps : stepLines cfg.lineTerm.asByte inp c0.pos inp.length = spansFrom 0 (Ls ++ tail) := by
+          rw [c_pos]
+          have := stepLines_good (t := cfg.lineTerm.asByte) (buf := inp) [] (Ls ++ tail) hg inp.length
+            (by simp [hfl]) (by simp [hfl])
+          simpa using this
+        have hmbl : matchByLine cfg m σ inp c0
+            = slowLoop cfg m σ inp (spansFrom (0 + Ls.flatten.length) tail) S1 := by
+          simp only [matchByLine, hfast, Bool.false_eq_true, if_false, matchByLineSlow, hsteps]
+          rw [spansFrom_append, slowLoop_append, hrun]
+        have hI := slowLoop_pres H m (spansFrom (0 + Ls.flatten.length) tail) S1 ⟨[], by simp⟩
+        rw [sliceLoop, hd]
+        simp only [Bool.false_eq_true, if_false, hmbl]
+        generalize slowLoop cfg m σ inp (spansFrom (0 + Ls.flatten.length) tail) S1 = g at hI ⊢
+        obtain ⟨T1, r1⟩ := g
+        cases r1 with
+        | err => exact hI
+        | ok b =>
+          cases b with
+          | false => exact hI
+          | true => exact sliceLoop_pres H m _ T1 hI
+    generalize sliceLoop cfg m σ inp (inp.length + 1) c0 = g at hloop ⊢
+    obtain ⟨T, r⟩ := g
+    obtain ⟨rest, hrest⟩ := hloop
+    cases r with
+    | err => exact ⟨rest, hrest⟩
+    | ok u =>
+      dsimp only
+      have hf := finish_events σ T (byteCount T) T.binaryByteOffset
+      simp only [Run.events]
+      rw [hf.1]
+      exact ⟨rest ++ [.finish (byteCount T) T.binaryByteOffset], by rw [hrest, List.append_assoc]⟩
+  · rw [hlen0, hσ] at hσ'; exact absurd hσ' (by decide)
+  · rw [hlen0, hσ] at hσ'; exact absurd hσ' (by decide)
+
+/-- **C02 for every allocation policy, with or without context lines, for every sink script**: reader =
+slice, events and result -- or, under a heap limit only, the reader fails with an allocation error
+after a prefix of the slice searcher's callbacks. -/
+theorem readByLine_vs_sliceByLine_alloc {cfg : Config} (m : MatcherI) (σ : Script)
     (hbin : cfg.binary = .none) (hslow : isLineByLineFast cfg m (Core.new cfg true) = false)
     (lbcfg : LineBuffer.Config) (hlt : lbcfg.lineterm = cfg.lineTerm.asByte) (hb : lbcfg.binary = .none)
-    (hal : lbcfg.alloc = .eager) (rdr : Reader) (hz : NoZero rdr.script) :
-    (readByLine cfg m σ lbcfg rdr).events = (sliceByLine cfg m σ rdr.data).events ∧
-      (readByLine cfg m σ lbcfg rdr).result = (sliceByLine cfg m σ rdr.data).result := by
+    (rdr : Reader) (hz : NoZero rdr.script) :
+    ((readByLine cfg m σ lbcfg rdr).events = (sliceByLine cfg m σ rdr.data).events ∧
+      (readByLine cfg m σ lbcfg rdr).result = (sliceByLine cfg m σ rdr.data).result) ∨
+    (lbcfg.alloc ≠ .eager ∧ (readByLine cfg m σ lbcfg rdr).result = .err ∧
+      ∃ rest, (sliceByLine cfg m σ rdr.data).events = (readByLine cfg m σ lbcfg rdr).events ++ rest) := by
   have hslow' : isLineByLineFast cfg m (Core.new cfg false) = false :=
     isLineByLineFast_false_all cfg m true hslow _
   have hb0 : begin σ (Core.new cfg false) = emit σ (Core.new cfg false) .begin := rfl
@@ -137,10 +245,20 @@ theorem readByLine_eq_sliceByLine_C {cfg : Config} (m : MatcherI) (σ : Script) 
           rw [← hc0]; exact ⟨Nat.le_refl _, rfl, Or.inl rfl⟩
         · show XRel cfg rdr.data [] 0 c1 c0 0
           left; rw [← hc0, ← hc1]; rfl
-      have hE := rblLoop_C hmc hbin hslow' hlt hb hal (rblFuel rdr) _ _ _ hR
+      have hE := rblLoop_C hbin hslow' hlt hb (rblFuel rdr) _ _ _ hR
         (by simp only [LB.init, LB.buffer, rblFuel]; simp; omega)
       generalize rblLoop cfg m σ (rblFuel rdr) ⟨c0, LB.init lbcfg, rdr⟩ = g at hE ⊢
       obtain ⟨s', res⟩ := g
+      rcases hE with hE | ⟨hne, hres, Ls, tail, S1, hg, hfl, hrun, hev⟩
+      rotate_left
+      · -- allocation error: a prefix of the callbacks
+        right
+        dsimp only at hres hev
+        subst hres
+        rw [← hc1] at hrun
+        obtain ⟨rest, hrest⟩ := sliceByLine_prefix m σ hbin rdr.data hslow hσ Ls tail hg hfl S1 hrun
+        exact ⟨hne, rfl, rest, by rw [hrest, hev]; rfl⟩
+      left
       obtain ⟨ls, T1, r1, hg, hfl, hrun, hev, hTb, hlb, hmatch⟩ := hE
       dsimp only at hev hlb hmatch
       have hpos : r1 = .ok true → T1.pos = rdr.data.length := by
@@ -165,7 +283,7 @@ theorem readByLine_eq_sliceByLine_C {cfg : Config} (m : MatcherI) (σ : Script) 
           dsimp only at hmatch ⊢
           obtain ⟨h1, h2⟩ := hmatch
           subst h1
-          have hf := finish_eq σ s'.core n s'.lb.binOff
+          have hf := finish_events σ s'.core n s'.lb.binOff
           simp only [Run.events]
           rw [hf.1, hf.2, hlb, ← hev, ← h2]
           exact ⟨rfl, rfl⟩
@@ -173,7 +291,7 @@ theorem readByLine_eq_sliceByLine_C {cfg : Config} (m : MatcherI) (σ : Script) 
           dsimp only at hmatch ⊢
           obtain ⟨h1, h2, h3⟩ := hmatch
           subst h1
-          have hf := finish_eq σ s'.core s'.lb.abs s'.lb.binOff
+          have hf := finish_events σ s'.core s'.lb.abs s'.lb.binOff
           simp only [Run.events]
           rw [hf.1, hf.2, hlb, ← hev, h3, ← h2]
           exact ⟨rfl, rfl⟩
@@ -191,7 +309,7 @@ theorem readByLine_eq_sliceByLine_C {cfg : Config} (m : MatcherI) (σ : Script) 
         dsimp only
         rw [if_neg (by decide)]
         dsimp only
-        have hf := finish_eq σ ({ Core.new cfg false with events := (Core.new cfg false).events ++ [Event.begin] } : Core)
+        have hf := finish_events σ ({ Core.new cfg false with events := (Core.new cfg false).events ++ [Event.begin] } : Core)
           (LB.init lbcfg).abs (LB.init lbcfg).binOff
         simp only [Run.events]
         rw [hf.1, hf.2]
@@ -208,14 +326,14 @@ theorem readByLine_eq_sliceByLine_C {cfg : Config} (m : MatcherI) (σ : Script) 
         dsimp only
         rw [if_neg (by decide)]
         dsimp only
-        have hf := finish_eq σ ({ Core.new cfg true with events := (Core.new cfg true).events ++ [Event.begin] } : Core)
+        have hf := finish_events σ ({ Core.new cfg true with events := (Core.new cfg true).events ++ [Event.begin] } : Core)
           (byteCount { Core.new cfg true with events := (Core.new cfg true).events ++ [Event.begin] })
           ({ Core.new cfg true with events := (Core.new cfg true).events ++ [Event.begin] } : Core).binaryByteOffset
         simp only [Run.events]
         rw [hf.1, hf.2]
         simp [byteCount, Core.new]
       · rw [hlen1, hσ] at hσ'; exact absurd hσ' (by decide)
-    exact ⟨by rw [hr.1, hs.1], by rw [hr.2, hs.2]⟩
+    exact Or.inl ⟨by rw [hr.1, hs.1], by rw [hr.2, hs.2]⟩
   | err =>
     have hr : (readByLine cfg m σ lbcfg rdr).events = [Event.begin] ∧
         (readByLine cfg m σ lbcfg rdr).result = .err := by
@@ -237,7 +355,7 @@ theorem readByLine_eq_sliceByLine_C {cfg : Config} (m : MatcherI) (σ : Script) 
       · rw [hlen1, hσ] at hσ'; exact absurd hσ' (by decide)
       · rw [heq]
         exact ⟨by simp [Run.events, Core.new], rfl⟩
-    exact ⟨by rw [hr.1, hs.1], by rw [hr.2, hs.2]⟩
+    exact Or.inl ⟨by rw [hr.1, hs.1], by rw [hr.2, hs.2]⟩
 
 /-- the BOM peek in front of `search_reader` only uses up a prefix of the read script -/
 theorem readFull_suffix : ∀ (fuel need rem : Nat) (sc : List Step), ∃ pre, sc = pre ++ (readFull fuel need rem sc).2 := by
@@ -275,18 +393,15 @@ theorem withBomPeek_noZero (r : Reader) (h : NoZero r.script) : NoZero r.withBom
 theorem withBomPeek_data (r : Reader) : r.withBomPeek.data = r.data := rfl
 
 /-- **C02 on the slow path, every configuration with detection off** (with or without context
-lines): reader = slice, events and result, for every sink script. -/
+lines), eager allocation: reader = slice, events and result, for every sink script. -/
 theorem readByLine_eq_sliceByLine_all {cfg : Config} (m : MatcherI) (σ : Script)
     (hbin : cfg.binary = .none) (hslow : isLineByLineFast cfg m (Core.new cfg true) = false)
     (lbcfg : LineBuffer.Config) (hlt : lbcfg.lineterm = cfg.lineTerm.asByte) (hb : lbcfg.binary = .none)
     (hal : lbcfg.alloc = .eager) (rdr : Reader) (hz : NoZero rdr.script) :
     (readByLine cfg m σ lbcfg rdr).events = (sliceByLine cfg m σ rdr.data).events ∧
       (readByLine cfg m σ lbcfg rdr).result = (sliceByLine cfg m σ rdr.data).result := by
-  by_cases hmc : cfg.maxContext = 0
-  · have h : NoCtx' cfg := by
-      unfold Config.maxContext at hmc
-      exact ⟨by omega, by omega, hbin⟩
-    exact readByLine_eq_sliceByLine_G m σ h hslow lbcfg hlt hb hal rdr hz
-  · exact readByLine_eq_sliceByLine_C m σ hmc hbin hslow lbcfg hlt hb hal rdr hz
+  rcases readByLine_vs_sliceByLine_alloc m σ hbin hslow lbcfg hlt hb rdr hz with h | h
+  · exact h
+  · exact absurd hal h.1
 
 end RgVerif.Searcher
